@@ -57,3 +57,24 @@ theorem b2i_true_ne (p : Prop) [Decidable p] : (b2i (decide p) ≠ 0) = p := by
   by_cases h : p <;> simp [b2i, h]
 
 end WaVerif.C10.Wat
+
+namespace WaVerif.C10.Wat
+
+theorem wrap32_small (x : Int) (h1 : -2147483648 ≤ x) (h2 : x < 2147483648) : wrap32 x = x := by
+  unfold wrap32; omega
+
+theorem divS_pos (a b : Int) (ha : 0 ≤ a) (hb : 0 < b) : divS a b = some (wrap32 (a / b)) := by
+  unfold divS
+  have h1 : b ≠ 0 := by omega
+  have h2 : ¬ (a = -2147483648 ∧ b = -1) := by omega
+  simp [h1, h2, Int.tdiv_eq_ediv_of_nonneg ha]
+
+theorem remS_pos (a b : Int) (ha : 0 ≤ a) (hb : 0 < b) : remS a b = some (wrap32 (a % b)) := by
+  unfold remS
+  have h1 : b ≠ 0 := by omega
+  simp [h1, Int.tmod_eq_emod_of_nonneg ha]
+
+theorem b2i_ne_zero_iff (p : Prop) [Decidable p] : b2i (decide p) ≠ 0 ↔ p := by
+  by_cases h : p <;> simp [b2i, h]
+
+end WaVerif.C10.Wat
